@@ -70,3 +70,98 @@ def post_shift_keys(r):
 
 def raises_shift(r):
     return r.num < 0
+
+
+# ------------------------------------------------------------------------------------------ W3: format specs
+def split_format_spec(spec):
+    """(string_format, ansi_format or None): the documented form "[string_format[:ansi_format]]" with
+    string_format = .?[+-]?[<>^]?[0-9]* (so that ':' can be a fill character)"""
+    g = re_groups('(.?[+-]?[<>^]?[0-9]*)(:.*)?$', spec, 'match')
+    if g is None:
+        return (spec, None)
+    if g[2] is None:
+        return (g[1], None)
+    return (g[1], g[2][1:])
+
+
+def is_align(ch):
+    return ch == '<' or ch == '>' or ch == '^'
+
+
+def all_digits(s):
+    for ch in s:
+        if not ('0' <= ch and ch <= '9'):
+            return False
+    return True
+
+
+def parse_string_format(sf):
+    """[fill [+|-]] align [width]  |  [width]   ->  (fill, extend, align, width or None), or None when outside the grammar.
+    A sign is only recognised after a fill character; a bare width left-justifies with spaces."""
+    n = len(sf)
+    if all_digits(sf):
+        if n == 0:
+            return (' ', True, '<', None)
+        return (' ', True, '<', int(sf))
+    if n >= 3 and (sf[1] == '+' or sf[1] == '-') and is_align(sf[2]) and all_digits(sf[3:]):
+        a = 2
+    elif n >= 2 and is_align(sf[1]) and all_digits(sf[2:]):
+        a = 1
+    elif n >= 1 and is_align(sf[0]) and all_digits(sf[1:]):
+        a = 0
+    else:
+        return None
+    fill = ' '
+    extend = True
+    if a >= 1:
+        fill = sf[0]
+    if a == 2:
+        extend = sf[1] == '+'
+    w = sf[a + 1:]
+    if len(w) == 0:
+        return (fill, extend, sf[a], None)
+    return (fill, extend, sf[a], int(w))
+
+
+def format_reference(r):
+    """doing the padding and apply_formatting on a copy: the ansi part goes on the whole padded result when formatting is
+    extended, and on the original characters only otherwise"""
+    sf, ansi = split_format_spec(r.format_spec)
+    obj = r.old_self.copy()
+    if sf == '':
+        if ansi:
+            obj.apply_formatting(ansi)
+        return obj
+    p = parse_string_format(sf)
+    if p is None:
+        return None
+    fill, extend, align, width = p
+    if not extend and ansi:
+        obj.apply_formatting(ansi)
+    if width is not None:
+        if align == '<':
+            obj.ljust(width, fill, inplace=True, extend_formatting=extend)
+        elif align == '>':
+            obj.rjust(width, fill, inplace=True, extend_formatting=extend)
+        else:
+            obj.center(width, fill, inplace=True, extend_formatting=extend)
+    if extend and ansi:
+        obj.apply_formatting(ansi)
+    return obj
+
+
+def post_format_spec(r):
+    ref = format_reference(r)
+    if ref is None:
+        return False
+    return r.result == ref.to_str(None, r.optimize, r.reset_start, r.reset_end)
+
+
+def raises_format_spec(r):
+    """ValueError is allowed exactly when the string format is outside the grammar, or when the ansi part is not a valid
+    settings string (the same call on a copy raises it too)"""
+    try:
+        ref = format_reference(r)
+    except ValueError:
+        return True
+    return ref is None
